@@ -164,6 +164,36 @@ def run(ctx: Ctx) -> None:
                         # nothing may escape the serve loop for a well-framed request
                         ctx.violation("RefusedTyped", {"meth": meth, "transport": "socket", "escaped": type(exc).__name__,
                                                        "client": repr(mdv), "srv": sv}, {"exc": repr(exc)})
+            # one long-lived connection: the judged call is the SECOND call of a real serve() loop, after a call that
+            # passed the gate ("accepted") or one that was refused ("refused"); the gate applies to every call alike
+            if near or ci % (5 if quick else 3) == 0:
+                for sv in (["1.2.0", None] if not near else ["1.2.0", "10.0.2", None]):
+                    server, calls = servers[sv]
+                    srv_t = [int(x) for x in sv.split(".")] if sv else []
+                    for hist in ("accepted", "refused"):
+                        first_md = ({world.K_PROTOVER: sv.encode()} if sv else {}) if hist == "accepted" else \
+                                   {world.K_PROTOVER: b"999.0.0"}
+                        first = world.raw_request(b"u", u_schema, {"x": 5}, md=first_md)
+                        for meth in ("unary", "stream"):
+                            second = world.raw_request(b"u", u_schema, {"x": 1}, md=md) if meth == "unary" else \
+                                world.raw_request(b"s", e_schema, {}, md=md) + close_input
+                            del calls[:]
+                            out, unread, exc = world.serve_bytes(server, first + second)
+                            streams = world.read_streams(out)
+                            n_first = len(calls)
+                            # the first call's own answer is the first stream; everything after it answers the judged call
+                            later = streams[1:]
+                            err = next((e for e in (world.error_of(st_) for st_ in later) if e), None)
+                            first_ok = bool(streams) and (world.error_of(streams[0]) is None) == (hist == "accepted" or sv is None)
+                            disp = len([c_ for c_ in calls]) > (1 if (hist == "accepted" or sv is None) else 0)
+                            base = {"srv": srv_t, "meth": meth, "transport": "socket"}
+                            o = _observe(err, disp, sv, txt, 0, base)
+                            tag = f"conn-after-{hist}"
+                            obs.append({"case": case, "obs": o, "_c": [repr(mdv), sv, meth, tag]})
+                            ctx.case([repr(mdv), sv, meth, tag])
+                            if not first_ok or (exc is not None and meth != "stream"):
+                                ctx.drift.append({"conn_leg": tag, "srv": sv, "client": repr(mdv), "first_ok": first_ok,
+                                                  "exc": repr(exc), "n_first": n_first})
             # HTTP legs (slower): near cases always, others sampled
             if (near and (quick or ci % 3 == 0)) or ci % (31 if quick else 53) == 0:
                 for sv, client in http.items():
